@@ -560,6 +560,24 @@ pub(crate) enum LinkRelay<O> {
     },
 }
 
+impl<O> LinkRelay<O> {
+    /// The session stopped: no disposition will arrive for the deliveries that are
+    /// still unsettled. The entries stay in the map (the link may be resumed on
+    /// another session); only the channels to the pending outcomes are closed, so
+    /// that whoever awaits an outcome is told that the session stopped.
+    pub(crate) fn fail_unsettled_deliveries(&self) {
+        if let LinkRelay::Sender { unsettled, .. } = self {
+            let mut guard = unsettled.write();
+            if let Some(map) = guard.as_mut() {
+                for msg in map.values_mut() {
+                    let (closed, _) = tokio::sync::oneshot::channel();
+                    drop(std::mem::replace(&mut msg.sender, closed));
+                }
+            }
+        }
+    }
+}
+
 impl LinkRelay<()> {
     pub fn new_sender(
         tx: mpsc::Sender<LinkIncomingItem>,
